@@ -51,6 +51,7 @@ func (s *Sender) Run(ctx context.Context) {
 			for {
 				if stream == nil {
 					sink = s.Sink
+					streamCancel = nil // no stream in progress: a finished stream's context must not be watched
 				} else {
 					sink = nil // a stream is in progress: do not accept another one
 					streamCancel = stream.Ctx.Done()
